@@ -412,6 +412,12 @@ pub struct C15Plan {
 	pub output: Output,
 	pub input: Input,
 	pub max_stack: Option<usize>,
+	/// `--os-stack` in MiB: the evaluation runs on a spawned thread
+	#[serde(default)]
+	pub os_stack: Option<usize>,
+	/// Depth of a non-tail recursion inside the program, so that the frame limit in force is observable
+	#[serde(default)]
+	pub depth: Option<u32>,
 	pub payload: i64,
 }
 
@@ -431,6 +437,9 @@ impl C15Plan {
 		}
 		if let Some(w) = &self.world_import {
 			fields.push(format!("w: (import '{root}{w}').id"));
+		}
+		if let Some(d) = self.depth {
+			fields.push(format!("d: (local f(i) = if i == 0 then 0 else 1 + f(i - 1); f({d}))"));
 		}
 		let obj = format!("{{ {} }}", fields.join(", "));
 		let body = match (self.format, &self.output) {
@@ -683,6 +692,8 @@ impl Scenario for C15Cli {
 			output,
 			input: *rng.pick(&[Input::File, Input::File, Input::Exec, Input::Stdin]),
 			max_stack: *rng.pick(&[None, None, None, Some(512), Some(40), Some(6)]),
+			os_stack: *rng.pick(&[None, None, None, Some(16usize), Some(64)]),
+			depth: *rng.pick(&[None, None, Some(3u32), Some(30), Some(100), Some(300)]),
 			payload: rng.below(1000) as i64,
 		}
 	}
@@ -794,6 +805,10 @@ impl Scenario for C15Cli {
 		}
 		if let Some(n) = plan.max_stack {
 			args.push("--max-stack".to_owned());
+			args.push(n.to_string());
+		}
+		if let Some(n) = plan.os_stack {
+			args.push("--os-stack".to_owned());
 			args.push(n.to_string());
 		}
 		let cwd_real = PathBuf::from(format!("{root}{}", plan.cwd));
@@ -965,6 +980,16 @@ impl Scenario for C15Cli {
 		if plan.max_stack.is_some() {
 			let mut p = plan.clone();
 			p.max_stack = None;
+			out.push(p);
+		}
+		if plan.os_stack.is_some() {
+			let mut p = plan.clone();
+			p.os_stack = None;
+			out.push(p);
+		}
+		if plan.depth.is_some() {
+			let mut p = plan.clone();
+			p.depth = None;
 			out.push(p);
 		}
 		for i in 0..plan.jpaths.len() {
